@@ -231,6 +231,20 @@ func c13Corpus() ([]*corpusItem, error) {
    "objs": {"array": [{"xpath": "g | a", "object": {"t": {"xpath": "."}}}]}, "one": {"xpath": "c | d"}}}}}`),
 		Input: []byte(`<root><rec><a>a1</a><b>b1</b><a>a2</a><g><a>ga1</a><b>gb1</b></g><b>b2</b><c>c1</c></rec><rec><b>b3</b><a>a3</a><g><b>gb2</b><a>ga2</a></g><a>a4</a><d>d1</d></rec>` +
 			`<rec><a>a5</a><b>b5</b><a>a6</a><g><a>ga3</a><b>gb3</b></g><b>b6</b><c>c2</c></rec><rec><a>a7</a><b>b7</b><a>a8</a><b>b8</b><a>a9</a><c>c3</c></rec><rec><g><a>x</a></g><b>y</b><a>z</a></rec></root>`)})
+	extra = append(extra, &corpusItem{Name: "c13/js-odd-endings", Format: "json", Schema: []byte(`{"parser_settings": {"version": "omni.2.1", "file_format_type": "json"},
+ "transform_declarations": {"FINAL_OUTPUT": {"xpath": "/*", "object": {"id": {"xpath": "id"},
+   "a": {"custom_func": {"name": "javascript", "args": [{"const": "v + 1 // trailing comment"}, {"const": "v"}, {"xpath": "v", "type": "int"}], "ignore_error": true}},
+   "b": {"custom_func": {"name": "javascript", "args": [{"const": "v + 2\n//# sourceMappingURL=nosuch.map"}, {"const": "v"}, {"xpath": "v", "type": "int"}], "ignore_error": true}},
+   "c": {"custom_func": {"name": "javascript", "args": [{"const": "'use strict'; v + 3;\n/* block */\n"}, {"const": "v"}, {"xpath": "v", "type": "int"}], "ignore_error": true}},
+   "d": {"custom_func": {"name": "javascript", "args": [{"const": "v + 4\n//@ sourceURL=x.js"}, {"const": "v"}, {"xpath": "v", "type": "int"}], "ignore_error": true}},
+   "e": {"custom_func": {"name": "javascript", "args": [{"const": "\ufeffv + 5"}, {"const": "v"}, {"xpath": "v", "type": "int"}], "ignore_error": true}}}}}}`),
+		Input: []byte(`[{"id": "1", "v": 1}, {"id": "2", "v": 10}, {"id": "3"}]`)})
+	for k, lit := range []string{"NEW  YORK", "NEW YORK", "NEW\\tYORK"} {
+		extra = append(extra, &corpusItem{Name: fmt.Sprintf("c13/xpath-literal-twin-%d", k+1), Format: "json", Schema: []byte(`{"parser_settings": {"version": "omni.2.1", "file_format_type": "json"},
+ "transform_declarations": {"FINAL_OUTPUT": {"xpath": "/*", "object": {"city": {"xpath": "city", "no_trim": true}, "val": {"xpath": "val[../city = '` + lit + `']"},
+   "n": {"xpath": ".[contains(city, '` + lit + `')]/val"}}}}}`),
+			Input: []byte(`[{"city": "NEW  YORK", "val": "1"}, {"city": "NEW YORK", "val": "2"}, {"city": "NEW\tYORK", "val": "3"}, {"city": "NEWYORK", "val": "4"}]`)})
+	}
 	extra = append(extra, &corpusItem{Name: "c13/builtin-funcs", Format: "json", Schema: []byte(c13BuiltinFuncs), Input: []byte(c13ExtFuncsInput)})
 	for _, it := range extra {
 		if it.mk != nil {
